@@ -463,6 +463,19 @@ let apply (toks : string list) (buf : Buffer.t) =
         done;
         evs := "ev " ^ String.concat " " (List.sort compare !strs)
       | None -> ())
+   | "tde" ->
+     (* a token-level mutation that was rejected: the destination is gone *)
+     if List.length toks > 4 then begin
+       (* as written (`tde src dst hr …`): the source world does not exist, the harness only clears the destination *)
+       let src = u 1 and dst = u 2 in
+       ensure src; ensure dst;
+       if dst <> src then !worlds.(dst) <- None
+     end else begin
+       let dst = u 1 in
+       ensure dst;
+       !worlds.(dst) <- None;
+       ret := "err-de"; evs := "ev ?"
+     end
    | "mde" ->
      (* the source world does not exist: the harness only clears the destination *)
      let src = u 1 and dst = u 2 in
